@@ -27,6 +27,62 @@ CLAIMED = {
              "uint64->int64 conversion of g++/x86-64; UBSan for undefined arithmetic.",
         technique="Lean 4 proof (arithmetic lemmas + invariant by induction over block operations) + differential correspondence",
         design="§4 C17"),
+    "C07": dict(
+        text="Lean 4 theorems over an executable model of CdnsDecoder written as decoder programs (free monad over next/peek): every "
+             "read_* accepts every well-formed RFC 8949 encoding of its type at every head width, definite or chunked "
+             "(readUnsigned_accepts ... readMapStart_accepts_indef), and skip_item consumes exactly one item of ANY well-formed shape "
+             "(skip_exact, by structural induction over the RFC 8949 syntax incl. nesting, tags, floats, indefinite containers; "
+             "skip_exact_linear: fuel linear in the input). Window independence comes from C05.runW_refines. Tied to the code by "
+             "differential runs of the real decoder (full-grammar items, every byte of an item on the 65535 boundary, deep nesting).",
+        note="Trusted: Lean kernel + standard axioms; translator T1 (major-type codes, buffer size); harness/dec.cpp, Driver/Dec.lean; "
+             "python generator ground truth as value oracle; std::istream modelled (Model/Window.lean).",
+        technique="Lean 4 proof (structural induction over CBOR syntax) + differential correspondence", design="§4 C07"),
+    "C01": dict(
+        text="Lean 4: the code's map keys and hint bits (regenerated from the working tree) equal the RFC 8618 transcription "
+             "(keys_match_rfc), offsets/time recovery (C17), encoder output (C06), exporter conservation (C12). End-to-end decision on "
+             "the implementation: three-way differential per output - library reader, independent Lean RFC 8618 reader "
+             "(Spec.Cdns.interpret over a strict CBOR parser) and the reference expectation (records buffered, RFC hint projection).",
+        note="Partial proof: the composed export->read theorem is split into per-layer theorems (keys, encoder, timestamps, exporter "
+             "bookkeeping, schema round trip C09); the record-level composition is tied by correspondence. Trusted: RFC transcription "
+             "from memory, tools/refexp.py + cdnsgen.py (spec oracle), harness/file.cpp.",
+        technique="Lean 4 proofs per layer + translator-checked RFC key table + three-way differential with an independent Lean reader", design="§4 C01"),
+    "C02": dict(
+        text="Lean 4 theorems over the exporter model for every call history: an output without blocks gets zero bytes, otherwise header once "
+             "+ blocks + exactly one break when closed (output_shape), preamble covers the blocks' parameter sets under the documented "
+             "duty (params_cover), framing bytes are the RFC 8949 encodings (C06). Inner structure decided on the implementation by the "
+             "strict Lean parser + RFC 8618 validator on every output of sessions with present-but-empty structures and directly built blocks.",
+        note="Partial proof: inner block structure (declared lengths, mandatory members, closed indices) is validated per output by "
+             "Spec.Cdns.interpret (executable spec), proved only at framing level and struct level (C09). Trusted: RFC transcription.",
+        technique="Lean 4 proof (invariant by induction over exporter operations) + strict Lean parser/validator as oracle", design="§4 C02"),
+    "C04": dict(
+        text="Lean 4: hint bits equal the RFC's and are pairwise distinct (translator-regenerated), disabled address events / malformed "
+             "messages and unstored records leave blocks untouched (exporter model). Projection and reachability decided on the "
+             "implementation: every single bit cleared/alone + random masks, fully populated records; file read by the independent Lean "
+             "reader must equal the RFC projection and have zero unreachable table entries.",
+        note="Partial proof: the ~45 per-field guards of add_question_response_record are tied by correspondence, not modelled one by one. "
+             "Trusted: tools/cdnsgen.py project_qr (RFC hint semantics), Spec/Cdns.lean reachability.",
+        technique="Lean 4 proof of bit tables + exporter gating; differential against RFC projection via independent Lean reader", design="§4 C04"),
+    "C10": dict(
+        text="Lean 4: returns_sum - for every call history the size of each output equals the sum of values returned while it was open "
+             "(rotation's return counted for the output it closes), destroy adds one byte; encoder_returns_lengths via C06. Tied by "
+             "sessions with rotations and all compression modes (python gzip/lzma decompression).",
+        note="Trusted: block/header sizes are parameters of the exporter model (their exactness is the encoder-level theorem + struct writers "
+             "summing encoder returns, tied by correspondence).",
+        technique="Lean 4 proof (induction over call history) + differential correspondence", design="§4 C10"),
+    "C12": dict(
+        text="Lean 4 theorems over the exporter model for every parameter list and call history: conservation_qr/mm (written blocks ++ "
+             "buffered block = storable records in order, once), aec_totals, flush_rule (block written iff an array reaches max(1,max)), "
+             "blocks_bounded (every written block non-empty and within its own limit), counters_match. Tied by EXHAUSTIVE short call "
+             "sequences (length<=4 quick / 5 thorough over 9 ops x 4 sizes x 3 hint settings) comparing returns, counters and block "
+             "structure of the real exporter with the Lean model and the reference, plus random long sessions.",
+        note="Trusted: records abstracted to ids + stored flag (projection is C04); harness/file.cpp, Driver/Exm.lean, tools/refexp.py.",
+        technique="Lean 4 proof (invariants by induction over exporter operations) + exhaustive bounded correspondence", design="§4 C12"),
+    "C13": dict(
+        text="Lean 4: closed_immutable (a rotated output never changes), output_shape (empty or header+blocks+one break), params_cover "
+             "(under the documented duty), carry_over; conservation across outputs from C12. Tied by random sessions with rotations to "
+             "names/descriptors, export 0/1, consecutive empty rotations, late parameter sets, all compression modes.",
+        note="Trusted: as C12; rotate_output(int) on a name-opened exporter (documented misuse) is outside the model.",
+        technique="Lean 4 proof (invariants over exporter operations) + differential correspondence", design="§4 C13"),
 }
 REASON_PENDING = "check not built yet in this revision (work in progress; see DESIGN.md §8 build order)"
 
